@@ -53,6 +53,28 @@ def mined_values(limit=None):
             for d in (-1, 0, 1):
                 if 0 <= c + d <= btc.U64MAX:
                     vals.add(c + d)
+    # constant expressions (`const X: usize = 4_000_000 / (4 * 60);`, `1 << 20`): their value is a number the code
+    # compares against although it is written nowhere as a literal
+    for f in sorted(glob.glob(os.path.join(repo, "src", "**", "*.rs"), recursive=True)):
+        try:
+            src = open(f, errors="replace").read()
+        except OSError:
+            continue
+        src = re.sub(r"//[^\n]*", "", src)
+        for m in re.finditer(r"(?:const|static|let)\s+\w+\s*(?::\s*[\w:<>]+)?\s*=\s*([^;{}\"']{3,80});", src):
+            expr = re.sub(r"(?<=[0-9a-fA-F])_(?=[0-9a-fA-F])", "", m.group(1))
+            expr = re.sub(r"\b(\d+|0x[0-9a-fA-F]+)(?:usize|u8|u16|u32|u64|u128|i32|i64|isize)\b", r"\1", expr)
+            expr = re.sub(r"\bas\s+\w+", "", expr)
+            if not re.fullmatch(r"[0-9a-fA-FxX\s+\-*/()<>%|&^]+", expr) or not re.search(r"[+\-*/<>%|&^]", expr):
+                continue
+            try:
+                c = eval(expr.replace("/", "//"), {"__builtins__": {}}, {})
+            except Exception:
+                continue
+            if isinstance(c, int):
+                for d in (-1, 0, 1):
+                    if 0 <= c + d <= btc.U64MAX:
+                        vals.add(c + d)
     out = sorted(vals)
     if limit is not None:
         out = [v for v in out if v <= limit]
@@ -551,6 +573,30 @@ def stream_struct(tier, seed):
                 meta[gid] = {"entry": "block", "tag": "mined:hugetotal", "len": len(b1)}
                 lines.append(P(gid + ".full", "block", b1 + b"\x09"))
                 break
+    # mined numbers between the model's reach and 70 000 as ELEMENT COUNTS of well-formed lists and blocks
+    # (implementation + reference decoder only)
+    cbudget = (12 if quick else 60) * 1000000
+    for v in sorted(mined_values(limit=70000), reverse=True):
+        if v <= (300 if quick else 1200) or 120 * v > cbudget:
+            continue
+        cbudget -= 120 * v
+        outs = [{"value": (k * 7 + v) % 1000, "spk": b""} for k in range(v)]
+        bb = btc.obj_bytes("txouts", outs)[0]
+        gid = "rocnt%d" % v
+        meta[gid + "o"] = {"entry": "txouts", "tag": "mined:hugecount", "len": len(bb)}
+        lines.append(P(gid + "o.full", "txouts", bb + b"\x33"))
+        ins = [{"txid": bytes([k % 251]) * 32, "vout": k, "sig": b"", "seq": k} for k in range(v)]
+        bb = btc.obj_bytes("txins", ins)[0]
+        meta[gid + "i"] = {"entry": "txins", "tag": "mined:hugecount", "len": len(bb)}
+        lines.append(P(gid + "i.full", "txins", bb))
+        tx = {"version": 1, "ins": [{"txid": bytes(32), "vout": 0, "sig": b"", "seq": 0}], "outs": [], "segwit": False, "wits": [], "locktime": 0}
+        tb = btc.tx_bytes(tx)[0]
+        hb = btc.obj_bytes("header", btc.rand_header(rng))[0]
+        bb = hb + btc.cs(v) + tb * v
+        meta[gid + "b"] = {"entry": "block", "tag": "mined:hugecount", "len": len(bb)}
+        lines.append(P(gid + "b.full", "block", bb + b"\x01"))
+        lines.append(P(gid + "w.full", "witnesses", bytes(v - 1) + b"\x01\x00" + b"\x55", v))
+        meta[gid + "w"] = {"entry": "witnesses", "tag": "mined:hugecount", "len": v + 2}
     # outpoints: boundary indices with null / non-null ids (coinbase-looking shapes)
     for vout in (0, 1, 255, 256, 0x7FFFFFFF, 0x80000000, 0xFFFFFFFE, 0xFFFFFFFF):
         for txid in (bytes(32), btc.rand_bytes(rng, 32), b"\xff" * 32):
